@@ -4,7 +4,7 @@ from common import SAN_BASE
 PROP = dict(
         technique=("runtime monitoring: ASan/UBSan build; PRNG trees rendered in each section style, parsed by mpt_parse_node and compared "
                    "node by node with the source tree; metamorphic comparison of canonical / compact / decorated renderings"),
-        level_text=("Monitored executions of the real parser and node builder: 60k (quick) / 1M (thorough) generated trees (depth <= 5, "
+        level_text=("Monitored executions of the real parser and node builder: 150k (quick) / 2M (thorough) generated trees (depth <= 5, "
                     "fan-out <= 6, duplicate and empty names, empty / quoted / long values across 255 and 65535 bytes) x 12 format "
                     "strings of the three section styles x name flag sets, each rendered three ways (example-file layout, optional "
                     "whitespace removed, random blanks / blank lines / comment lines / trailing comments / CR LF) and read back; nesting, "
@@ -12,13 +12,14 @@ PROP = dict(
         level_note=("trusts the renderer in harness/c09_readback.c, i.e. its reading of the doc comments of mpt_parse_format_pre/_enc/_sep, "
                     "mpt_parse_format and of examples/core/*.txt, *.lay, mpt.conf; gcc ASan/UBSan"),
         legs=[dict(name="c09_readback", src=["c09_readback.c"], libs=["mptcore"], batch=512,
-                   floors={"mpt_parse_node": 150000, "style:prefix": 20000, "style:enclosed": 10000, "style:separated": 10000,
-                           "monitor:trees-equal:canonical": 50000, "monitor:trees-equal:compact": 50000,
-                           "monitor:trees-equal:noisy": 50000, "monitor:values-compared": 500000,
-                           "monitor:names-compared": 500000, "tree:depth>=3": 5000,
-                           "tree:with-value-250..254": 4000, "tree:with-value-255..260": 4000, "tree:with-value-65530..65540": 800,
-                           "tree:with-name-250..260": 3000,
-                           "decoration:comments": 50000, "decoration:blank-lines": 50000, "decoration:trailing-comments": 5000})],
+                   floors={"mpt_parse_node": 450000, "style:prefix": 70000, "style:enclosed": 35000, "style:separated": 35000,
+                           "monitor:trees-equal:canonical": 150000, "monitor:trees-equal:compact": 150000,
+                           "monitor:trees-equal:noisy": 150000, "monitor:values-compared": 2000000,
+                           "monitor:names-compared": 2000000, "monitor:links-compared": 2000000, "tree:depth>=3": 15000,
+                           "tree:with-value-250..254": 15000, "tree:with-value-255..260": 15000, "tree:with-value-65530..65540": 3000,
+                           "tree:with-name-250..260": 10000, "tree:comment-char-inside-plain-value": 10000,
+                           "decoration:comments": 300000, "decoration:blank-lines": 300000, "decoration:trailing-comments": 50000,
+                           "decoration:crlf": 50000})],
         rule=("case = (format string, section/option name flag sets, generated tree of sections, options and anonymous data); the tree is "
               "rendered canonically, compactly and with random decoration and each text is parsed into an empty root; non-trivial = "
               "the tree has at least 3 nodes and (except for the flat separated style) at least one section; distinct = 64-bit hash "
